@@ -24,6 +24,12 @@ def row_signal(k, seed):
 def kwargs_variant(k):
     th = dict(amp_fraction_threshold=0.05 * (k % 3), amp_consistency_threshold=.3 + .1 * (k % 4),
               period_consistency_threshold=.4, monotonicity_threshold=.5 + .05 * (k % 5), min_n_cycles=2 + k % 2)
+    if k % 3 == 2:
+        # every third row uses the amplitude method (per-row lists then mix burst methods: [cycles, cycles, amp, ...])
+        return dict(center_extrema='trough' if k % 2 else 'peak', burst_method='amp',
+                    burst_kwargs=dict(min_n_cycles=2 + k % 2),
+                    threshold_kwargs=dict(burst_fraction_threshold=.5 + .1 * (k % 4), min_n_cycles=2 + k % 2),
+                    find_extrema_kwargs=dict(boundary=k % 3, filter_kwargs=dict(n_cycles=3)))
     return dict(center_extrema='trough' if k % 2 else 'peak', threshold_kwargs=th,
                 find_extrema_kwargs=dict(boundary=k % 3, filter_kwargs=dict(n_cycles=3)))
 
